@@ -8,9 +8,12 @@ def sh(cmd, **kw): return subprocess.run(cmd, shell=True, capture_output=True, t
 assert sh("git -C /repo status --porcelain").stdout.strip() == "", "/repo dirty"
 for sid, d in sorted(DESC.items()):
     prop, x = sid.split("/")
-    src = f"/tmp/seedout/{prop}/{x}"
+    base = "/tmp/seedout" if x in "AB" else "/tmp/seedout2"
+    src = f"{base}/{prop}/{x}"
     dst = os.path.join(ROOT, "seeded", f"{prop}-{x}")
-    vlog = f"/tmp/seedout/verify/{prop}_{x}.log"
+    vlog = f"{base}/verify/{prop}_{x}.log"
+    if os.path.exists(dst + "/meta.json") and "--force" not in sys.argv:
+        continue
     if not os.path.exists(src + "/patch.diff"):
         continue
     if not os.path.exists(vlog) or "RESULT" not in open(vlog).read():
@@ -31,11 +34,19 @@ for sid, d in sorted(DESC.items()):
         sh("git -C /repo checkout -- . && git -C /repo clean -fdq")
     keys = sorted(set(re.findall(r"^(?:FAIL|UNDECIDED) (\S+)", out, re.M)))
     keys = [k for k in keys if not k.startswith("C") or ":" in k]
+    # which property checks report it (the obligations keep their home rule ids; shared ones run under several properties)
+    byprop, cur = {}, None
+    for line in out.splitlines():
+        m = re.match(r"property (C\d\d) ", line)
+        if m: cur = m.group(1); continue
+        m = re.match(r"(?:FAIL|UNDECIDED) (C\d\d(?:-D\d+)?)", line)
+        if m and cur: byprop.setdefault(cur, set()).add(m.group(1))
+    byprop = {k: sorted(v) for k, v in sorted(byprop.items())}
     meta = dict(seed_id=sid, property=prop, source="independent sub-agent given only the property text and a scratch worktree",
                 summary=d["summary"], needs=d["needs"], files=d.get("files", ""),
                 verified=dict(demo_passes_on_clean_tree=True, demo_fails_with_change=True, full_suite_passes_with_change=True,
                               how="tools/verify_seed.sh in a scratch git worktree of /repo HEAD (demo copied into the package named by its package clause; go test -vet=off -count=1 -timeout 25m ./...)"),
                 checks_run="git -C /repo apply patch.diff; bin/ddverif -property all; git -C /repo checkout -- .",
-                detected=bool(keys), detected_by=keys[:12], n_reports=len(keys), comment=d.get("comment", ""))
+                detected=bool(keys), reported_by_own_property_check=prop in byprop, property_checks_reporting=byprop, detected_by=keys[:12], n_reports=len(keys), comment=d.get("comment", ""))
     json.dump(meta, open(dst + "/meta.json", "w"), indent=1)
     print(sid, "detected" if keys else "MISSED", keys[:3])
